@@ -22,6 +22,7 @@ from fractions import Fraction as F
 sys.path.insert(0, os.path.dirname(os.path.abspath(__file__)))
 from lib import Check, REPO, guarded, zlit, blit, qlit, listlit   # noqa: E402
 import gen_geohash                                                  # noqa: E402  (tools/)
+import gen_flood                                                    # noqa: E402  (tools/)
 
 import logging                                                      # noqa: E402
 logging.disable(logging.CRITICAL)
@@ -202,6 +203,10 @@ def main():
     # the flood's neighbours and start cell go through the C11 codec model: re-tie its tables
     rep = gen_geohash.main(REPO, os.path.join(ck.rundir, 'GeohashCfgGen.v'))
     ck.gen('GeohashCfgGen.v', rep, 'GeohashCfgGenEq.v')
+    # translator tie (T) for NiemeyerHasher: flood-fill condition / step / visit, multi-shape union, hash_shape dispatch,
+    # the group-by loops and _get_surrounding, regenerated from the working tree and proved equal to FloodM
+    rep = gen_flood.main(REPO, os.path.join(ck.rundir, 'FloodGen.v'))
+    ck.gen('FloodGen.v', rep, 'FloodGenEq.v')
     ck.props('Props/C12.v')
 
     rng = ck.rng
